@@ -114,6 +114,9 @@ func writePhase(x *explore.Ctx, cfg WConfig, prog int, tier string, mask *MaskRe
 			return e
 		}
 	}
+	if e.BeforeFinish != nil {
+		e.BeforeFinish()
+	}
 	e.CloseAbandoned()
 	return e
 }
